@@ -989,6 +989,34 @@ int32 sslActivateWriteCipher(ssl_t *ssl)
     return PS_SUCCESS;
 }
 
+/*
+    A write sequence number never wraps (RFC 5246 6.1, RFC 6347 4.1, RFC 8446
+    5.3).  Its last value is not used: once it is reached no further record is
+    sealed under the key, so that no nonce or MAC sequence can come back.
+ */
+int32 sslWriteSeqExhausted(const ssl_t *ssl)
+{
+    const unsigned char *seq = ssl->sec.seq;
+    int32 i, len = 8;
+
+# ifdef USE_DTLS
+    if (ACTV_VER(ssl, v_dtls_any))
+    {
+        seq = ssl->rsn;
+        len = 6;
+    }
+# endif
+    for (i = 0; i < len; i++)
+    {
+        if (seq[i] != 0xFF)
+        {
+            return 0;
+        }
+    }
+    psTraceErrr("Write sequence number exhausted\n");
+    return 1;
+}
+
 /******************************************************************************/
 #endif /* USE_NATIVE_TLS_ALGS */
 
